@@ -1,5 +1,2 @@
-import KoalaVerif.Model.Lattice
-import KoalaVerif.Lemmas.CMap
-import KoalaVerif.Lemmas.Orbit
-import KoalaVerif.Lemmas.Sweep
-import KoalaVerif.Lemmas.Glue
+import KoalaVerif.Model.All
+import KoalaVerif.Props.C01
